@@ -220,11 +220,11 @@ def doRun (fuel : Nat) (src stdin : List Char) (repl : Bool) : String :=
   | some a => s!"ABN:{abnName a}"
   | none => s!"O:{hx r.out}\tE:{hx r.stderr}\tF:{b01 r.hadError}{b01 r.hadRuntimeError}\tN:{r.nativeCalls}\tI:{r.inputRest.length}"
 
-/-- `cli TAB hex(args joined by NUL) TAB hex(stdin) TAB (ok:hex(content) | missing)` -/
+/-- `cli TAB hex(args, each preceded by U+0001) TAB hex(stdin) TAB (ok:hex(content) | missing)` -/
 def doCli (fuel : Nat) (argsHex stdinHex fileSpec : String) : String :=
   let argText := textOfHex argsHex
   let args : List (List Char) :=
-    if argText.isEmpty then [] else (String.ofList argText).splitOn "\x00" |>.map String.toList
+    ((String.ofList argText).splitOn "\x01").drop 1 |>.map String.toList
   let file : Option (List Char) :=
     if fileSpec.startsWith "ok:" then some (textOfHex (fileSpec.drop 3).toString) else none
   let r := Cli.main platform fuel args file (textOfHex stdinHex)
